@@ -561,10 +561,12 @@ pub fn exec(c: &RenderCase, st: &mut Stats) -> Vec<Viol> {
                 }
             }
             // line bookkeeping of the miette adapter: any `k<n>` key shown on a gutter line n' must have n = n'
+            let mut widest = 0usize;
             for line in t.split('\n') {
                 if let Some((left, right)) = line.split_once('│').or_else(|| line.split_once('|')) {
                     let lt = left.trim();
                     if let Ok(n) = lt.parse::<u64>() {
+                        widest = widest.max(right.chars().count());
                         let rt = right.trim_start();
                         if let Some(k) = key_number(rt)
                             && k != n
@@ -573,6 +575,13 @@ pub fn exec(c: &RenderCase, st: &mut Stats) -> Vec<Viol> {
                         }
                     }
                 }
+            }
+            // "each line cropped to the configured radius around the error column ... and for the miette adapter"
+            if c.with_snippet && c.radius > 0 && c.radius < 100_000 && widest > 2 * c.radius + 8 {
+                out.push(mk(
+                    "miette-not-cropped",
+                    format!("crop radius {}: the miette report shows a source line of {widest} characters", c.radius),
+                ));
             }
             continue;
         }
@@ -752,6 +761,13 @@ pub fn exec(c: &RenderCase, st: &mut Stats) -> Vec<Viol> {
                     "marker-not-on-reported-line",
                     format!("{name}: reported line {}, carets under lines {lines:?}", info.line),
                 ));
+            } else if blocks.iter().any(|b| !b.second && b.lines.iter().any(|(n, _)| *n == info.line)) {
+                // the reported line is shown, and no line of the window has a marker in its text area (a
+                // marker drawn into the gutter, left of the `|`, is under no column at all)
+                out.push(mk(
+                    "marker-missing",
+                    format!("{name}: the window shows line {} and has no marker under any column of it: {:?}", info.line, trunc(t)),
+                ));
             }
         }
     }
@@ -884,6 +900,60 @@ fn gen_doc(rng: &mut Rng, target: RTarget) -> String {
     }
     if target == RTarget::TwoLoc {
         return gen_two_location_doc(rng);
+    }
+    if target == RTarget::Json && rng.chance(1, 3) {
+        // every line of the window is deeply indented (nested mappings, one level per line), and the error
+        // sits at or in front of the indentation: a renderer that trims "useless" leading white space must
+        // still put the marker under the reported column
+        let depth = rng.range(22, 60);
+        let mut s = String::new();
+        for i in 1..=depth {
+            s.push_str(&format!("{}k{i}:\n", " ".repeat(i - 1)));
+        }
+        let ind = " ".repeat(depth);
+        let n = rng.range(3, 7);
+        let bad = rng.range(1, n);
+        let mut line = depth; // lines written so far: the next key stands on line `line + 1`
+        for j in 1..=n {
+            let i = line + 1;
+            if j == bad {
+                match rng.below(5) {
+                    // a quoted scalar continued on a tab-indented line: "tab cannot be used as indentation", column 1
+                    0 => {
+                        // (as many tabs as it takes to reach the indentation: every line of the window is then
+                        // deeply indented)
+                        let tabs = "\t".repeat(depth.div_ceil(4) + rng.below(3));
+                        s.push_str(&format!("{ind}k{i}: \"first\n{tabs}second\"\n"));
+                        line += 2;
+                    }
+                    // a reserved indicator where a key should start
+                    1 => {
+                        s.push_str(&format!("{ind}@k{i}: 1\n"));
+                        line += 1;
+                    }
+                    // a line that is indented more than its siblings
+                    2 => {
+                        s.push_str(&format!("{}k{i}: 1\n", " ".repeat(depth + 2)));
+                        line += 1;
+                    }
+                    // blanks made of control characters (the sanitiser turns them into blanks) in front of text
+                    // a line that begins with a control character (a blank once sanitised) and goes on after a
+                    // run of blanks
+                    3 => {
+                        s.push_str(&format!("\x1b{}k{i}: 1\n", " ".repeat(depth.saturating_sub(1))));
+                        line += 1;
+                    }
+                    _ => {
+                        s.push_str(&format!("{ind}k{i}: [1, 2\n"));
+                        line += 1;
+                    }
+                }
+            } else {
+                s.push_str(&format!("{ind}k{i}: {}\n", rng.below(100)));
+                line += 1;
+            }
+        }
+        return s;
     }
     let crlf = rng.chance(1, 5);
     let eol = if crlf { "\r\n" } else { "\n" };
